@@ -340,6 +340,14 @@ class StmtMixin:
             base = self.ev(target.value, st, fr)
             if isinstance(target.slice, ast.Slice):
                 raise Unsupported('slice assignment')
+            if isinstance(target.slice, ast.Tuple) and any(isinstance(e, ast.Slice) for e in target.slice.elts):
+                # a[:, k] = v on an opaque array object: handed to the declared __setitem__ external with ':' for a full slice
+                ext = isinstance(base, Obj) and self.external_spec((['%s.__setitem__' % base.cls] if base.cls else []) + ['.__setitem__'], fr)
+                if not ext or any(isinstance(e, ast.Slice) and (e.lower or e.upper or e.step) for e in target.slice.elts):
+                    raise Unsupported('slice assignment')
+                idxs = [':' if isinstance(e, ast.Slice) else self.ev(e, st, fr) for e in target.slice.elts]
+                self.apply_external(ext, '.__setitem__', base, idxs + [v], {}, st, fr, None)
+                return
             idx = self.ev(target.slice, st, fr)
             if isinstance(base, Obj) and base.kind in ('arr', 'seq'):
                 idxs = list(idx) if isinstance(idx, tuple) else [idx]
@@ -561,8 +569,33 @@ class StmtMixin:
                             heap_targets.append(('index', x.value))
         return names, heap_targets
 
+    def lists_to_heap(self, node, st, fr):
+        """Local Python lists that the loop body appends to become heap sequence objects (so that the loop invariant can talk
+        about their length and elements); the element sort comes from the contract (`sorts={'name': 'seq:real'}`)."""
+        for n in ast.walk(node):
+            if isinstance(n, ast.Call) and isinstance(n.func, ast.Attribute) and n.func.attr == 'append' and isinstance(n.func.value, ast.Name):
+                nm = n.func.value.id
+                v = st.locals.get(nm)
+                if isinstance(v, list):
+                    sp = self.contract.sorts.get(nm, 'seq:ref')
+                    elem = sp.split(':')[1] if sp.startswith('seq:') else 'ref'
+                    o = self.new_obj(st, 'list', 'seq', elem, 1, name='lst_' + nm)
+                    st.heap['$len'] = z3.Store(self.field(st, '$len'), o.ref, z3.IntVal(len(v)))
+                    for k, x in enumerate(v):
+                        self.arr_write(st, o, [k], x)
+                    st.locals[nm] = o
+
     def havoc_loop_state(self, node, st, fr, spec):
         names, targets = self.modified_in(node.body, st, fr)
+        # method calls that mutate sequence objects held in locals (append)
+        for n in ast.walk(node):
+            if isinstance(n, ast.Call) and isinstance(n.func, ast.Attribute) and n.func.attr == 'append' and isinstance(n.func.value, ast.Name):
+                v = st.locals.get(n.func.value.id)
+                if isinstance(v, Obj) and v.kind == 'seq':
+                    fid = self.arr_fid(v)
+                    self.counter += 1
+                    st.heap[fid] = z3.Store(self.field(st, fid), v.ref, z3.Const('hv_data!%d' % self.counter, self.field_sort(fid).range()))
+                    st.heap['$len'] = z3.Store(self.field(st, '$len'), v.ref, self.fresh('hv_len', 'int'))
         snapshot = st.copy()
         for kind, *rest in targets:
             if kind == 'attr':
@@ -660,6 +693,7 @@ class StmtMixin:
                 hi, elem = self.iter_domain(it, st, fr)
                 direct = False
         outs = []
+        self.lists_to_heap(node, st, fr)
         entry = st.copy()
         sframe = self.spec_frame(fr, st, entry)
         # 1. invariant holds on entry
